@@ -97,9 +97,13 @@ def linear_spline(
         bin_width = 1.0 / num_bins
         logabsdet = torch.log(input_pdfs) - np.log(bin_width)
 
+    # The spline is defined on the unit square; rescaling to the [left, right] x [bottom, top]
+    # box contributes (top - bottom) / (right - left) to the derivative.
     if inverse:
         outputs = outputs * (right - left) + left
+        logabsdet = logabsdet - np.log(top - bottom) + np.log(right - left)
     else:
         outputs = outputs * (top - bottom) + bottom
+        logabsdet = logabsdet + np.log(top - bottom) - np.log(right - left)
 
     return outputs, logabsdet
